@@ -23,6 +23,7 @@
 #include "src/polyseed.c"
 #include "contracts/spec.h"
 #include "contracts/gf.h"
+#include "contracts/decode.h"
 #include "stubs/deps.h"
 
 /* ---- ghost inputs chosen by the stubs ---- */
@@ -136,17 +137,11 @@ void harness(void) {
 #endif
     CANARY();
 
-    /* expected status, by the documented precedence */
-    unsigned c[16];
-    for (int i = 0; i < 16; ++i) c[i] = (unsigned)h_pd_idx[i];
+    /* expected status, by the documented precedence (contracts/decode.h) */
+    unsigned c[16], idx[16];
+    for (int i = 0; i < 16; ++i) { idx[i] = (unsigned)h_pd_idx[i]; c[i] = idx[i]; }
     c[1] ^= coin;
-    polyseed_status expect;
-    if (h_split_ret != POLYSEED_NUM_WORDS) expect = POLYSEED_ERR_NUM_WORDS;
-    else if (h_pd_status != POLYSEED_OK) expect = h_pd_status;
-    else if (spec_eval16(c) != 0) expect = POLYSEED_ERR_CHECKSUM;
-    else if (g_alloc_failed) expect = POLYSEED_ERR_MEMORY;
-    else if (!spec_supported(spec_unpack_features(c), reserved_features)) expect = POLYSEED_ERR_UNSUPPORTED;
-    else expect = POLYSEED_OK;
+    polyseed_status expect = spec_decode_status(h_split_ret, h_pd_status, idx, coin, g_alloc_failed, reserved_features);
     __CPROVER_assert(r == expect, "decode: status follows the precedence NUM_WORDS, LANG/MULT_LANG, CHECKSUM, MEMORY, UNSUPPORTED, OK");
 
     __CPROVER_assert(h_lazy_calls == 1 && h_lazy_in == str && h_split_calls == 1, "decode: input normalised once, split once");
@@ -164,8 +159,7 @@ void harness(void) {
     if (r == POLYSEED_OK) {
         __CPROVER_assert(seed_out == (polyseed_data*)g_block && g_live == 1 && g_free_calls == 0, "decode: on OK the live block is the seed");
         polyseed_data s = *seed_out;
-        gf_poly p; for (int i = 0; i < 16; ++i) p.coeff[i] = c[i];
-        __CPROVER_assert(spec_unpack_matches(p, s), "decode: seed fields are the inverse layout of the coefficients (coin removed)");
+        __CPROVER_assert(spec_decode_seed(idx, coin, s), "decode: seed fields are the inverse layout of the coefficients (coin removed)");
         __CPROVER_assert(spec_canonical_v(s), "decode: the seed handed out is canonical");
         __CPROVER_assert(spec_supported(s.features, reserved_features), "decode: only supported features are accepted");
     } else {
